@@ -270,7 +270,14 @@ class Ctx:
             "coverage": cov, "assumptions": self.assumptions, "wall_s": round(wall, 2),
             "violations": len(self.violations),
         }
-        (EVIDENCE / f"{self.pid}.json").write_text(json.dumps(ev, indent=1, default=str))
+        import re as _re
+        if _re.fullmatch(r"C\d\d", self.pid):
+            (EVIDENCE / f"{self.pid}.json").write_text(json.dumps(ev, indent=1, default=str))
+        else:
+            # stand-alone drivers of helper parts (C14F, C01V, ...) are development aids: their evidence is part of
+            # the owning property's file when that check runs; keep evidence/ to the 20 property ids
+            (VERIF / "build").mkdir(exist_ok=True)
+            (VERIF / "build" / f"evidence_{self.pid}.json").write_text(json.dumps(ev, indent=1, default=str))
         self.log(f"done tier={self.tier} obligations={cov['obligations']} discharged={cov['discharged']} "
                  f"violations={len(self.violations)} known={len(self.known_hits)} wall={wall:.1f}s")
         return 1 if self.violations else 0
